@@ -91,7 +91,7 @@ def trk(prop, pre, qp, tp, reach):
           trk_assume, trk_out, site_prefix=pre)
 trk("C01", "c01.", {"K": 5, "S": 2, "L": 2}, {"K": 6, "S": 3, "L": 2}, ["trk.emitted", "trk.flush-many", "trk.history-end"])
 trk("C02", "c02.", {"K": 5, "S": 2, "L": 2}, {"K": 6, "S": 3, "L": 2}, ["trk.emitted", "trk.flush-many", "trk.history-end"])
-trk("C04", "c04.", {"K": 4, "S": 2, "L": 1, "WILD": 1}, {"K": 5, "S": 2, "L": 1, "WILD": 1}, ["trk.emitted", "trk.history-end"])
+trk("C04", "c04.", {"K": 3, "S": 2, "L": 1, "WILD": 1}, {"K": 4, "S": 2, "L": 1, "WILD": 1}, ["trk.emitted", "trk.history-end"])
 
 # ---- C11: arbitrary lines
 kw = ["Accepted publickey", "Accepted password", "Certificate invalid", "Invalid user", "User ", "ROOT LOGIN REFUSED FROM",
@@ -180,11 +180,12 @@ write("C09", [run("reuse", TRK, "VerifC09Reuse", {"params": {"K": 7}, "sym_map_o
 
 
 # ---- C16 (correlator API level)
-write("C16", [run("history-with-cleanup", TRK, "VerifTrackerHistory", {"params": {"K": 4, "S": 2, "L": 2, "CLEANUP": 1}, "max_steps": 20000000},
-                  {"params": {"K": 5, "S": 2, "L": 2, "CLEANUP": 1}, "max_steps": 50000000},
+write("C16", [run("history-with-cleanup", TRK, "VerifTrackerHistory", {"params": {"K": 4, "S": 2, "L": 2, "CLEANUP": 1, "CLOCKSTEP": 0}, "max_steps": 20000000},
+                  {"params": {"K": 5, "S": 2, "L": 2, "CLEANUP": 1, "CLOCKSTEP": 0}, "max_steps": 50000000},
                   reach=["c16.session-discarded", "c16.login-discarded", "c16.correlated-despite-cleanup", "trk.history-end"],
                   bounds="K operations incl. both cleanup calls with symbolic cut-offs (0..1000 s) placed anywhere; login times symbolic; a session's age is bracketed by two symbolic clock readings")],
       ["equality of age and cut-off is left open, as in the statement (paths where the cut-off falls inside a session's clock bracket are not asserted)",
+       "no time passes during one history (CLOCKSTEP=0): all sessions of a history have the same symbolic age, cut-offs and login times vary freely around it - this is what makes a counterexample replayable against the real clock",
        "the wiring in Auditd.Read (a one-minute ticker calling both cleanups with now-1min) is read from the source but not executed: it sits behind the real parser/reassembler, which the engine does not run",
        "stubs: zap, uuid, time.Now (symbolic non-decreasing clock)"],
       ["real-time runs of the audit processor (the 'thorough, about three minutes' part of the quantifier)", "the ticker wiring in Auditd.Read"], site_prefix="c16.")
